@@ -495,6 +495,7 @@ fn main() {
 
     let mut o = String::new();
     o.push_str(&format!("// GENERATED by /verif/vx from the working tree of /repo — unit `{}`. Do not edit.\n", unit.name));
+    for f in &unit.features { o.push_str(&format!("#![feature({})]\n", f)); }
     o.push_str("#![allow(unused_imports, unused_variables, unused_mut, dead_code, unused_parens, unused_braces, non_snake_case, unused_assignments, unreachable_code, non_camel_case_types, non_upper_case_globals)]\nuse vstd::prelude::*;\nuse vstd::std_specs::cmp::PartialEqSpec;\nuse vstd::view::View as _;\nuse vstd::multiset::Multiset;\n");
     for u in &unit.uses { o.push_str(u); o.push('\n'); }
     o.push_str("verus! {\n\n");
